@@ -9,11 +9,22 @@ import (
 var _ DataComponent = (*StoredEnchantments)(nil)
 
 type StoredEnchantments struct {
-	Enchantments []struct {
-		Type  pk.VarInt
-		Level pk.VarInt
-	}
+	Enchantments  []Enchantment
 	ShowInTooltip pk.Boolean
+}
+
+// Enchantment is one (type, level) entry of a StoredEnchantments component.
+type Enchantment struct {
+	Type  pk.VarInt
+	Level pk.VarInt
+}
+
+func (e *Enchantment) ReadFrom(r io.Reader) (int64, error) {
+	return pk.Tuple{&e.Type, &e.Level}.ReadFrom(r)
+}
+
+func (e Enchantment) WriteTo(w io.Writer) (int64, error) {
+	return pk.Tuple{e.Type, e.Level}.WriteTo(w)
 }
 
 // ID implements DataComponent.
